@@ -8,13 +8,19 @@
   * `C17_fires_at_due_once`: executing a scheduled action picks a slot whose due time is the
     target, emits its event (PaddingSent / BlockingBegin for the slot's machine, with the
     action's flags) stamped with exactly that due time, and empties the slot — so it fires once;
+  * `C17_pending_never_in_past`, `C17_next_event_before_pending`: trace-level liveness as an
+    inductive invariant of the main loop — simulated time never moves past a pending action
+    timer or internal timer;
+  * `C17_executed_when_strictly_earliest`: the accurate description of selection-time execution
+    (S1): an action is executed exactly when it is strictly the earliest candidate, with its
+    event stamped with the due time;
   * `C17_served_before_due`, `C17_stored_not_in_past`: the liveness core — the next served offset
     is at most the offset of every pending action, and stored due times start at or after the
     clock;
   * `C17_due_not_skipped`: the offset `pick_next` computes for scheduled actions is the smallest
     pending due time at or after the clock; no candidate it serves first is later than it.
 -/
-import MbVerif.Proofs.SimLive
+import MbVerif.Proofs.SimFuture
 import MbVerif.Spec.C17
 
 namespace Mb.C17
@@ -68,6 +74,42 @@ theorem C17_stored_not_in_past (cur : Option Pending) (t : Int) (a : TAction) (p
   | sendPadding to b r m => simp [slotSpec] at h; rw [← h]; simp; omega
   | blockOutgoing to d b r m => simp [slotSpec] at h; rw [← h]; simp; omega
   | updateTimer d r m => simp [slotSpec] at h; exact hc p h
+
+/-- **Simulated time never moves past a pending action timer or internal timer** (trace level, as
+    an inductive invariant of the main loop): the state `sim_advanced` starts from has no pending
+    timer, and if all pending timers are at or after the clock they still are after any iteration
+    of the main loop (for an event within `Duration::MAX` of the clock, which `std::time::Instant`
+    guarantees).  Hence an action that has not been superseded is never left behind by the clock:
+    it stays pending at or after `now` until `pick_next` executes it. -/
+theorem C17_pending_never_in_past (ρ : Oracle σ) :
+    (∀ mc ms sq a orc st, initState ρ mc ms sq a orc = .ok st → FutureOK st) ∧
+    (∀ (st st' : St σ) (r : StepRec), st.sq.WF → FutureOK st → step ρ st = .ok (some (r, st')) →
+      r.ev.time - st.now < durMax → FutureOK st' ∧ st'.sq.WF) :=
+  ⟨fun _ _ _ _ _ _ h => initState_future ρ h,
+   fun _ _ _ hw hf h hreal => ⟨step_future ρ hw hf h hreal, (step_conserve ρ hw h).1⟩⟩
+
+/-- **When exactly an action is executed (the accurate statement behind S1).**  `pick_next`
+    executes a scheduled action — clears its slot, applies a BlockOutgoing to the blocking state,
+    and queues its PaddingSent / BlockingBegin stamped with the slot's *due* time — precisely when
+    the earliest pending action is strictly earlier than every other candidate it sees: the
+    earliest internal timer, the blocking expiry, the pending aggregate delay and the queue
+    offset.  This happens at *selection* time, i.e. possibly while the clock is still before the
+    due time (it is the code's behaviour; the contract's "on expiry" is S1's deviation). -/
+theorem C17_executed_when_strictly_earliest (st : St σ) (s : Nat) (h : pickDecide st = .ok (.action s)) :
+    s = peekScheduledAction st.client.schedAction st.server.schedAction st.now ∧
+    s < peekScheduledInternalTimer st.client.schedTimer st.server.schedTimer st.now ∧
+    s < (peekBlockedExp st.client.blockingUntil st.server.blockingUntil st.now).1 ∧
+    s < st.net.peekAggregateDelay st.now ∧
+    ∃ e q qid c, peekQueue st e = .ok (q, qid, c) ∧ s < q :=
+  pickDecide_action_strict h
+
+/-- **The event returned next is not later than any timer that is still pending**, so the
+    clock (which becomes the event's time) cannot pass one. -/
+theorem C17_next_event_before_pending (fuel : Nat) (st st' : St σ) (e : SimEvent) (hw : st.sq.WF) (hf : FutureOK st)
+    (h : pickNext fuel st = some (.ok (some e, st'))) (hreal : e.time - st.now < durMax) :
+    (∀ a, (some a ∈ st'.client.schedAction ∨ some a ∈ st'.server.schedAction) → e.time ≤ a.time) ∧
+    (∀ t, (some t ∈ st'.client.schedTimer ∨ some t ∈ st'.server.schedTimer) → e.time ≤ t) :=
+  (pickNext_before_pending fuel st st' e hw hf h hreal).2
 
 /-- non-vacuity: a one-slot side on which a padding action is stored -/
 example : slotSpec none 5 (.sendPadding 3 true false 0) = some ⟨.sendPadding 3 true false 0, 3005⟩ := by decide
